@@ -4,6 +4,7 @@ import (
 	"bytes"
 	"errors"
 	"math"
+	"unicode/utf8"
 
 	"golang.org/x/text/encoding"
 	"golang.org/x/text/transform"
@@ -272,7 +273,7 @@ func (g *gsm7Decoder) Transform(dst, src []byte, atEOF bool) (nDst, nSrc int, er
 	for x, b := range text {
 		dst[x] = b
 	}
-	return nDst, nSrc, err
+	return nDst, len(src), err
 }
 
 type gsm7Encoder struct {
@@ -298,7 +299,7 @@ func (g *gsm7Encoder) Transform(dst, src []byte, atEOF bool) (nDst, nSrc int, er
 		} else {
 			return 0, 0, ErrInvalidCharacter
 		}
-		nSrc++
+		nSrc += utf8.RuneLen(r)
 	}
 
 	nDst = len(septets)
